@@ -210,6 +210,8 @@ def _has_class(vio, names, keys=("layout", "A", "B", "C")):
 @mechanism("F28-reduce-sort-through-records")
 def _f28(vio):
     op = _op_of(vio)
+    if (vio.get("case") or {}).get("mode") == "axis-none":
+        return False          # axis=None never resolves an axis inside record fields (C03's lane-P stream)
     return vio.get("kind") in ("outcome-kind-differs", "value-differs", "wrong-value", "unexpected-error") and \
         op.get("op") in ("reduce", "sort", "argsort") and _has_class(vio, ("RecordArray",))
 
@@ -932,6 +934,9 @@ def _f117(vio):
     left to broadcast the value against - a scalar fails ('content argument must be a Content subtype'), an array
     becomes a field of one record per outermost entry instead of per innermost record"""
     det = vio.get("detail") or {}
+    if det.get("lane") == "P" and (det.get("op") or {}).get("op") == "with_field_path":
+        # nested records {id, a: {k, b: {x}}}: x is the only field of a.b
+        return det.get("where") == ["a", "b", "x"] and vio.get("kind") in ("unexpected-error", "wrong-value")
     return det.get("lane") == "P" and (det.get("op") or {}).get("op") == "with_field" and \
         det.get("names") == [det.get("where")] and vio.get("kind") in ("unexpected-error", "wrong-value")
 
